@@ -250,6 +250,26 @@ func instrument(path string) (int, error) {
 			}
 			ast.Inspect(n, func(m ast.Node) bool {
 				switch x := m.(type) {
+				case *ast.ForStmt:
+					// a retry loop whose condition (or post statement)
+					// synchronises, `for !flag.CompareAndSwap(..) { .. }`:
+					// the point in front of the loop is passed once, so
+					// every iteration gets one of its own
+					spins := false
+					if x.Cond != nil && len(shallowSites(&ast.ExprStmt{X: x.Cond})) > 0 {
+						spins = true
+					}
+					if x.Post != nil && len(shallowSites(x.Post)) > 0 {
+						spins = true
+					}
+					if spins && x.Body != nil {
+						x.Body.List = append([]ast.Stmt{&ast.ExprStmt{X: &ast.CallExpr{
+							Fun:  &ast.SelectorExpr{X: ast.NewIdent("verifhook"), Sel: ast.NewIdent("Y")},
+							Args: []ast.Expr{&ast.BasicLit{Kind: token.STRING, Value: `"auto"`}, ast.NewIdent("nil")},
+						}}}, x.Body.List...)
+						inserted++
+					}
+					return true
 				case *ast.BlockStmt:
 					if x == iife {
 						x.List = visit(x.List, ctx)
